@@ -59,6 +59,7 @@ def run(P, R, tier):
     var_rules(P, R)
     varalloc_rule(P, R)
     upgate_rule(P, R)
+    tablerow_rule(P, R)
     rowend_rule(P, R)
     lines_rule(P, R, "C05.lines", only=("GetSelectedOutputStringLine",))
     once_rule(P, R)
@@ -1109,3 +1110,51 @@ def lines_rule(P, R, rule, only=None):
 
 def members_in_names(n):
     return set(x[2].split("::")[-1] for x in T.walk(n) if x[0] == "Member")
+
+
+def tablerow_rule(P, R):
+    """The value table has one row per line of the string / file and keeps what was punched:
+    (rowcount) CSelectedOutput::EndRow advances m_nRowCount on every path - also while the table has no column yet (a USER_PUNCH-only
+               block whose program punches nothing in its first rows still writes a line for each of them);
+    (padkeep)  PushBackEmpty, used by IPhreeqc::EndRow to pad unpunched USER_PUNCH headings, must not reach the branch of PushBack that
+               replaces the cell the pending row already has for that heading (headings are keys: a repeated heading names an earlier
+               column) - it tests the column's length against m_nRowCount and returns first."""
+    RULE = "C05.tablerow"
+    R.rule(RULE, "CSelectedOutput: EndRow counts every row; padding with empty cells never replaces a cell of the pending row", minimum=2)
+    f = P.one("CSelectedOutput::EndRow")
+    cfg = T.CFG(f)
+    dom = cfg.dominators()
+    inc = []
+    for nd in cfg.nodes:
+        if T.is_node(nd["n"]):
+            for t, how, line, n in T.writes(nd["n"]):
+                root, steps = T.access_path(t)
+                if how == "++" and steps == [("f", "CSelectedOutput::m_nRowCount")]:
+                    inc.append(nd["id"])
+    if inc and any(i in dom.get(cfg.exit, ()) for i in inc):
+        R.ok(RULE, "EndRow:rowcount", "++m_nRowCount dominates the exit of EndRow")
+    else:
+        R.violation(RULE, "EndRow:rowcount", "CSelectedOutput::EndRow does not advance m_nRowCount on every path: a row that ends while the table has no column is not counted, "
+                    "the string and file have a line the table has no row for", file=f["file"], line=f["line"], function=f["q"])
+    g = P.one("CSelectedOutput::PushBackEmpty")
+    pb = P.one("CSelectedOutput::PushBack")
+    overwrites = any(how in ("=", "call:operator=") and any(T.is_node(y) and y[0] == "Call" and T.callee_name(y) == "at" for y in T.walk(t)) for t, how, line, n in T.writes(pb["body"]))
+    calls = [c for c in T.calls(g["body"]) if T.callee_q(c) == "CSelectedOutput::PushBack"]
+    if not calls:
+        R.anchor_missing(RULE, "PushBackEmpty no longer calls PushBack")
+        return
+    if not overwrites:
+        R.ok(RULE, "PushBackEmpty:padkeep", "PushBack has no overwriting branch")
+        return
+    guard = None
+    for x in T.walk(g["body"]):
+        if x[0] == "If" and x[1] <= calls[0][1]:
+            mem = {y[2] for y in T.walk(x[2]) if y[0] == "Member"}
+            body_ = x[3][2] if T.is_node(x[3]) and x[3][0] == "Compound" else [x[3]]
+            if {"CSelectedOutput::m_arrayVar", "CSelectedOutput::m_nRowCount"} <= mem and body_ and T.is_node(body_[-1]) and body_[-1][0] == "Return":
+                guard = x
+    if guard:
+        R.ok(RULE, "PushBackEmpty:padkeep", "returns before PushBack when the column already has a cell for the pending row (line %d)" % guard[1])
+    else:
+        R.violation(RULE, "PushBackEmpty:padkeep", "PushBackEmpty calls PushBack without testing whether the pending row already has a cell for that heading: PushBack then replaces the "
+                    "punched value by EMPTY (repeated heading names)", file=g["file"], line=calls[0][1], function=g["q"])
